@@ -19,6 +19,9 @@ ARDUINOJSON_BEGIN_PUBLIC_NAMESPACE
 // https://arduinojson.org/v7/api/jsondocument/
 class JsonDocument : public detail::VariantOperators<const JsonDocument&> {
   friend class detail::VariantAttorney;
+#ifdef BBLANCHON_ARDUINOJSON_VERIF
+  friend struct ::ArduinoJsonVerifInspector;
+#endif
 
  public:
   explicit JsonDocument(Allocator* alloc = detail::DefaultAllocator::instance())
